@@ -108,7 +108,7 @@ func c04Loopback(c *Ctx) {
 	}
 	defer lc.Close()
 	defer lr.Close()
-	closedPort := freePort("127.0.0.1")
+	closedPort := unlistenedPort("127.0.0.1")
 
 	kinds := map[string][]string{
 		"udp":       {"valid", "random", "truncated", "two", "silence", "udp-closed-port", "empty"},
